@@ -536,6 +536,9 @@ var protocolMemo = map[*core.Ctx]map[string][2]string{}
 // assertionPanic: the panic is guarded by a test of a boolean state field of the receiver; a protocol proof for that
 // field shows every caller reaches the method in the other state.
 func assertionPanic(c *core.Ctx, fn *ssa.Function, pn *ssa.Panic) (bool, string) {
+	if ok, why := platformStub(c, fn, pn); ok {
+		return true, why
+	}
 	field := ""
 	var fields []string
 	for _, cnd := range core.CondsAt(pn.Block()) {
@@ -579,6 +582,112 @@ func assertionPanic(c *core.Ctx, fn *ssa.Function, pn *ssa.Panic) (bool, string)
 	}
 	protocolMemo[c][field] = res
 	return res[0] == "ok", res[1]
+}
+
+// platformStub: fn is a "not implemented on this platform" stub (its body is a single panic) and every call site is
+// guarded by a boolean configuration field that can only be true when a capability probe returned true — and the
+// probe returns the constant false in this build variant.
+func platformStub(c *core.Ctx, fn *ssa.Function, pn *ssa.Panic) (bool, string) {
+	if len(fn.Blocks) != 1 || fn.Blocks[0].Instrs[len(fn.Blocks[0].Instrs)-1] != ssa.Instruction(pn) {
+		return false, ""
+	}
+	for _, in := range fn.Blocks[0].Instrs {
+		switch in.(type) {
+		case *ssa.Panic, *ssa.MakeInterface, *ssa.DebugRef:
+		default:
+			return false, ""
+		}
+	}
+	sites := c.CallSitesOf(fn)
+	if len(sites) == 0 {
+		return false, ""
+	}
+	var flags []string
+	for _, s := range sites {
+		var guard *ssa.FieldAddr
+		for _, cnd := range core.CondsAt(s.Call.Block()) {
+			if !cnd.Val {
+				continue
+			}
+			if u, ok := cnd.Cond.(*ssa.UnOp); ok && u.Op == token.MUL {
+				if fa, ok := u.X.(*ssa.FieldAddr); ok {
+					guard = fa
+				}
+			}
+		}
+		if guard == nil {
+			return false, "call of the stub at " + c.Rel(s.Call.Pos()) + " is not guarded by a configuration flag"
+		}
+		ref := core.FieldAddrRef(guard)
+		if ref.Struct == nil {
+			return false, ""
+		}
+		// every store to the flag is `probe() && …` with a probe that is constantly false here
+		n := 0
+		for _, f := range c.SrcFuncs() {
+			bad := ""
+			core.EachInstr(f, func(_ *ssa.BasicBlock, _ int, in ssa.Instruction) {
+				st, ok := in.(*ssa.Store)
+				if !ok {
+					return
+				}
+				fa, ok := st.Addr.(*ssa.FieldAddr)
+				if !ok {
+					return
+				}
+				r := core.FieldAddrRef(fa)
+				if r.Name != ref.Name || r.Struct == nil || r.Struct.Obj() != ref.Struct.Obj() {
+					return
+				}
+				n++
+				for _, o := range core.Origins(st.Val, core.OriginOpts{}) {
+					if k, isC := core.ConstBool(o); isC && !k {
+						continue
+					}
+					// any other origin must sit behind the true edge of a constantly-false probe
+					oi, ok := o.(ssa.Instruction)
+					okProbe := false
+					if ok {
+						for _, cnd := range core.CondsAt(oi.Block()) {
+							if call, isCall := cnd.Cond.(*ssa.Call); isCall && cnd.Val && alwaysFalse(core.StaticCallee(call)) {
+								okProbe = true
+							}
+						}
+					}
+					if !okProbe {
+						bad = "flag " + ref.String() + " is set from " + core.Expr(o) + " at " + c.Rel(st.Pos())
+					}
+				}
+			})
+			if bad != "" {
+				return false, bad
+			}
+		}
+		if n == 0 {
+			return false, "no store to flag " + ref.String()
+		}
+		flags = append(flags, ref.String())
+	}
+	return true, fmt.Sprintf("platform stub: all %d call sites are guarded by %s, which is only ever set to `probe() && …` where the probe returns the constant false in this build variant", len(sites), strings.Join(dedup(flags), ", "))
+}
+
+func alwaysFalse(f *ssa.Function) bool {
+	if f == nil || f.Blocks == nil {
+		return false
+	}
+	rets := returnsOf(f)
+	if len(rets) == 0 {
+		return false
+	}
+	for _, r := range rets {
+		if len(r.Results) != 1 {
+			return false
+		}
+		if k, isC := core.ConstBool(r.Results[0]); !isC || k {
+			return false
+		}
+	}
+	return true
 }
 
 var stateProtocols = map[string]func(c *core.Ctx) []string{
